@@ -7,9 +7,11 @@ import (
 	"encoding/json"
 	"flag"
 	"fmt"
+	"io/ioutil"
 	"math/rand"
 	"os"
 	"os/exec"
+	"path/filepath"
 	"sort"
 	"strconv"
 	"strings"
@@ -110,7 +112,7 @@ func buildW(c wCase, r *rand.Rand) *astisub.Subtitles {
 		cd := time.Date(2019, 5, 6, 0, 0, 0, 0, time.UTC)
 		rd := time.Date(2019, 7, 8, 0, 0, 0, 0, time.UTC)
 		s.Metadata = &astisub.Metadata{Framerate: 25, STLDisplayStandardCode: "0", STLCreationDate: &cd, STLRevisionDate: &rd, Title: "T",
-			SSAScriptType: "v4.00+", Language: astisub.LanguageEnglish, STLCountryOfOrigin: "NOR",
+			SSAScriptType: []string{"v4.00+", "v4.00"}[c.Keys%2], Language: astisub.LanguageEnglish, STLCountryOfOrigin: "NOR",
 			// comments as a program may set them: one of them runs over two lines
 			Comments:           []string{"first comment", "second comment\ncontinued on another line", " padded "},
 			WebVTTTimestampMap: &astisub.WebVTTTimestampMap{Local: time.Second, MpegTS: 90000}}
@@ -195,6 +197,21 @@ func dig(b []byte) string { return fmt.Sprintf("%x", sha1.Sum(b))[:16] }
 func writeOnce(s *astisub.Subtitles, f string) (string, string, string) {
 	var buf bytes.Buffer
 	var err error
+	if strings.HasPrefix(f, "file:") {
+		// through the file helper, which picks the writer by the extension
+		dir, derr := ioutil.TempDir("", "verif-wfile-")
+		if derr != nil {
+			return "", "err", derr.Error()
+		}
+		defer os.RemoveAll(dir)
+		path := filepath.Join(dir, "out."+strings.TrimPrefix(f, "file:"))
+		res, msg := run.Guard(20*time.Second, func() { err = s.Write(path) })
+		if res == "ok" && err != nil {
+			res, msg = "err", err.Error()
+		}
+		b, _ := ioutil.ReadFile(path)
+		return dig(b), res, msg
+	}
 	res, msg := run.Guard(20*time.Second, func() { err = writeDoc(strings.TrimSuffix(f, "+dates"), s, &buf) })
 	if res == "ok" && err != nil {
 		res, msg = "err", err.Error()
@@ -323,6 +340,12 @@ func cmdWriters(args []string) error {
 			emit(list, "stl+dates", "clock-default", s3, project.Digest(s3))
 			astisub.Now = func() time.Time { return fixed }
 		}
+		if ci%4 == 0 {
+			// the file helper, one extension after the other on the same list object (.ass and .ssa share a writer)
+			for _, ext := range []string{"ssa", "ass", "ssa", "srt", "vtt", "ttml", "stl", "ssa", "ASS"} {
+				emit(list, "file:"+strings.ToLower(ext), kind, s, orig)
+			}
+		}
 		if c.Meta {
 			// the metadata supplies the STL dates: another clock must not change the bytes
 			astisub.Now = func() time.Time { return fixed.Add(1000 * time.Hour) }
@@ -356,6 +379,8 @@ func cmdWriters(args []string) error {
 			tmp := *out + fmt.Sprintf(".child%d", p)
 			cmd := exec.Command(os.Args[0], "writers", "-cases", *in, "-out", tmp, "-seed", strconv.FormatInt(*seed, 10), "-reps", "2",
 				"-child", strconv.Itoa(p), "-nrand", strconv.Itoa(*nrand), "-n0", strconv.Itoa(*n0), "-orders", "0")
+			// another process may run in another time zone: the bytes are a function of the list
+			cmd.Env = append(os.Environ(), "TZ="+[]string{"America/Los_Angeles", "Asia/Tokyo", "Pacific/Kiritimati", "America/Sao_Paulo"}[(p-1)%4])
 			if outb, err := cmd.CombinedOutput(); err != nil {
 				return fmt.Errorf("child %d: %v: %s", p, err, outb)
 			}
